@@ -30,6 +30,7 @@ type c3DB struct {
 	calls  int
 	writes []string
 	gate   *c3Gate // if armed: the FIRST call to reach the database is suspended before it looks at its arguments
+	gateR  *c3Gate // if armed: the FIRST read is suspended AFTER its answer has been determined, before it returns
 }
 
 // c3Gate suspends one database call: `entered` is closed when the call has arrived (holding its key slice, not
@@ -45,6 +46,26 @@ func (d *c3DB) arm() *c3Gate {
 	d.gate = g
 	d.mu.Unlock()
 	return g
+}
+
+// armAfterRead: the first GetByKey parks with its answer already taken (check-then-act windows of the callers)
+func (d *c3DB) armAfterRead() *c3Gate {
+	g := &c3Gate{entered: make(chan struct{}), resume: make(chan struct{})}
+	d.mu.Lock()
+	d.gateR = g
+	d.mu.Unlock()
+	return g
+}
+
+func (d *c3DB) passAfterRead() {
+	d.mu.Lock()
+	g := d.gateR
+	d.gateR = nil
+	d.mu.Unlock()
+	if g != nil {
+		close(g.entered)
+		<-g.resume
+	}
 }
 
 func (d *c3DB) pass() {
@@ -117,6 +138,12 @@ func (d *c3DB) fault() error {
 
 func (d *c3DB) GetByKey(key []byte) ([]byte, error) {
 	d.pass()
+	v, err := d.get(key)
+	d.passAfterRead()
+	return v, err
+}
+
+func (d *c3DB) get(key []byte) ([]byte, error) {
 	d.mu.Lock()
 	defer d.mu.Unlock()
 	if err := d.fault(); err != nil {
